@@ -35,6 +35,8 @@
 
 using namespace amgcl;
 using vf::Csr; using vf::J; using vf::Rng; using vf::Case;
+// set-valued observations are comma lists: keep commas out of the tokens
+static std::string tok(std::string s) { for (auto &ch : s) if (ch == ',') ch = ';'; return s; }
 typedef long double LD;
 typedef backend::builtin<double> B;
 typedef amg<B, coarsening::smoothed_aggregation, relaxation::spai0> AMG;
@@ -89,7 +91,7 @@ template <bool SPMV = true, class Mat> void check_all(Case &c, const std::string
         if constexpr (SPMV) { check_spmv(c, nm, M, S, 1.0, 0.0); check_spmv(c, nm, M, S, cs[r.range(1, 4)], cs[r.range(1, 4)]); }
         else { backend::crs<double> C(M); check_spmv(c, nm + "->crs", C, S, 1.0, 0.0); }
     } catch (const std::exception &e) { c.fail(nm + ":exception", e.what()); }
-    vf::obs_add("adapters_seen", nm); vf::obs_sum("adapter_presentations");
+    vf::obs_add("adapters_seen", tok(nm)); vf::obs_sum("adapter_presentations");
 }
 
 template <class P, class C> void tuple_variant(Case &c, const std::string &nm, const Src &S, Rng &r) {
@@ -188,7 +190,7 @@ template <int b> void block_variant(Case &c, const Src &S, Rng &r) {
         bool sok = true; double worst = 0; for (size_t i = 0; i < n; ++i) { LD s = 0, ac = 0; for (ptrdiff_t j = A.ptr[i]; j < A.ptr[i + 1]; ++j) { s += (LD)A.val[j] * S.x[A.col[j]]; ac += fabsl((LD)A.val[j] * S.x[A.col[j]]); }
             double g = Y[i / b](i % b); if (S.exact) { if (!((LD)g == s)) sok = false; } else { LD bound = 2.0L * (ref[i / b].size() * b + 4) * 2.22e-16L * ac; if (!(fabsl((LD)g - s) <= bound)) sok = false; } }
         c.check(sok, tag + ":spmv", "spmv through the block adapter differs from the scalar A x");
-        vf::obs_add("adapters_seen", tag); vf::obs_sum("adapter_presentations");
+        vf::obs_add("adapters_seen", tok(tag)); vf::obs_sum("adapter_presentations");
     };
     try { auto BA1 = adapter::block_matrix<Blk>(T); check(nm + "(tuple)", BA1); auto BA2 = adapter::block_matrix<Blk>(M); check(nm + "(crs)", BA2); }
     catch (const std::exception &e) { c.fail(nm + ":exception", e.what()); }
